@@ -912,13 +912,13 @@ package regexp2
 //@   modifies buf.$n, buf.$out[*]
 //@   ensures[len]    buf.$n == old(buf.$n) + ite(m.matchcount[groupnum] > 0, m.matches[groupnum][2*m.matchcount[groupnum]-1], 0)
 //@   ensures[prefix] forall k int :: 0 <= k && k < old(buf.$n) ==> buf.$out[k] == old(buf.$out[k])
-//@   ensures[last]   m.matchcount[groupnum] > 0 ==> forall k int :: 0 <= k && k < m.matches[groupnum][2*m.matchcount[groupnum]-1] ==>
-//@                      buf.$out[old(buf.$n) + k] == m.text.runes[m.matches[groupnum][2*m.matchcount[groupnum]-2] + k]
+//@   ensures[last]   m.matchcount[groupnum] > 0 ==> forall o int {buf.$out[o]} :: old(buf.$n) <= o && o < buf.$n ==>
+//@                      buf.$out[o] == m.text.runes[m.matches[groupnum][2*m.matchcount[groupnum]-2] + (o - old(buf.$n))]
 //@   loop 0:
 //@     invariant c == m.matchcount[groupnum] && c > 0 && matches == m.matches[groupnum] && last == matches[2*c-2] + matches[2*c-1] && matches[2*c-2] <= index && index <= last && last <= len(m.text.runes)
 //@     invariant buf.$n == old(buf.$n) + (index - matches[2*c-2])
 //@     invariant forall k int :: 0 <= k && k < old(buf.$n) ==> buf.$out[k] == old(buf.$out[k])
-//@     invariant forall k int :: 0 <= k && k < index - matches[2*c-2] ==> buf.$out[old(buf.$n) + k] == m.text.runes[matches[2*c-2] + k]
+//@     invariant forall o int {buf.$out[o]} :: old(buf.$n) <= o && o < buf.$n ==> buf.$out[o] == m.text.runes[matches[2*c-2] + (o - old(buf.$n))]
 //@     decreases last - index
 
 //@ spec func AllLastCapsInText(m *Match) bool = forall g int :: 0 <= g && g < len(m.matchcount) ==> LastCapInText(m, g)
